@@ -6,6 +6,6 @@ os.environ['NBSA_NO_INLINE'] = '1'
 sys.path.insert(0, '/verif')
 from nbsa.core import Repo
 r = Repo(sys.argv[1] if len(sys.argv) > 1 else '/repo')
-ids = sorted(f for f in r.functions if '.' not in f.split(':')[1])
+ids = sorted(r.functions)
 json.dump(ids, open('/verif/nbsa/baseline_functions.json', 'w'), indent=0)
-print(len(ids), 'module-level functions')
+print(len(ids), 'functions and methods')
